@@ -263,3 +263,141 @@ spec.contract(
 
 FUNCTIONS2 = [CLS + '.exhaustive_search.skip_if_subset',
               CLS + '.exhaustive_search']
+
+# ---------------------------------------------------------------------------
+# greedy_search
+
+DSET = TDict(I, TSet())
+
+
+def ctl_ok(ga, c, t):
+  """Control group c is admissible next to treatment group t (= legal_c)."""
+  e = z3.EmptySet(I)
+  return z3.And(z3.IsSubset(S(ga.c_fixed), c), z3.IsSubset(c, S(ga.c)),
+                z3.SetIntersect(c, t) == e,
+                z3.IsSubset(S(ga.ct), z3.SetUnion(t, c)))
+
+
+def dget(d, k):
+  d = unwrap(d)
+  return z3.Select(d.val, k)
+
+
+def _kappa0(s):
+  return card(S(GA(s).t_fixed))
+
+
+def _J(s):
+  ga = GA(s)
+  trt, cst = unwrap(s.group_star_trt), unwrap(s.group_star_ctl)
+  k = N(s.k)
+  nm = B(s.needs_matching)
+  gc = S(s.group_ctl)
+  k0 = _kappa0(s)
+  j = z3.Int('j!J')
+  return z3.And(
+      k >= k0,
+      trt.dom == cardlemmas.range_set(k0, k + 1),
+      cst.dom == z3.If(nm, cardlemmas.range_set(k0, k),
+                       cardlemmas.range_set(k0, k + 1)),
+      z3.ForAll([j], z3.Implies(z3.And(j >= k0, j <= k), z3.And(
+          legal_t(ga, z3.Select(trt.val, j)),
+          z3.IsSubset(z3.Select(trt.val, j), S(ga.all))))),
+      z3.ForAll([j], z3.Implies(
+          z3.And(j >= k0, z3.If(nm, j < k, j <= k)),
+          ctl_ok(ga, z3.Select(cst.val, j), z3.Select(trt.val, j)))),
+      ctl_ok(ga, gc, z3.Select(trt.val, k)))
+
+
+def _inner_match_inv(s):
+  ga = GA(s)
+  trt = unwrap(s.group_star_trt)
+  return z3.And(ctl_ok(ga, S(s.group_ctl_tmp), z3.Select(trt.val, N(s.k))),
+                B(cl.comparable(s.current_score)))
+
+
+def _inner_add_inv(s):
+  ga = GA(s)
+  return z3.And(legal_t(ga, S(s.group_trt)),
+                z3.IsSubset(S(s.group_trt), S(ga.all)),
+                ctl_ok(ga, S(s.group_ctl), S(s.group_trt)),
+                B(cl.comparable(s.current_score)))
+
+
+def _g_push_c01(s):
+  k = N(s.k)
+  return legal(s, dget(s.group_star_trt, k), dget(s.group_star_ctl, k))
+
+
+def _g_push_c02(s):
+  k = N(s.k)
+  t, c = dget(s.group_star_trt, k), dget(s.group_star_ctl, k)
+  p = s.self.parameters
+  ga = GA(s)
+  return z3.And(sizes_ok(s, t, c), vol_ok(s, t, c),
+                in_range(SHI(s, t) / SHI(s, S(ga.all)),
+                         p.treatment_share_range))
+
+
+def _g_push_budget(s):
+  k = N(s.k)
+  return budget_ok(s, dget(s.group_star_trt, k), dget(s.group_star_ctl, k))
+
+
+def _g_push_c04(s):
+  d = s.design
+  k = N(s.k)
+  t, c = dget(s.group_star_trt, k), dget(s.group_star_ctl, k)
+  return And(SetEq(d.treatment_geos, t), SetEq(d.control_geos, c),
+             Not(IsNone(d.diag)),
+             _diag_is(ObjView(s.ctx, unwrap(d.diag).val, None), s, t, c),
+             _diag_is(d.score.diag, s, t, c),
+             IsNone(d.score._score))
+
+
+GA_FIELDS_MOD = ['self.data.' + f for f in (
+    '_geo_index', 'geo_assignments', '_array', '_array_geo_share')]
+
+spec.contract(
+    CLS + '.greedy_search', params={}, result=TSeq(ItemSort),
+    modifies=GA_MOD + ['self._search_results'],
+    props=('C01', 'C02', 'C04', 'C09', 'C10', 'C13'),
+    requires=SEARCH_REQ,
+    locals_shapes={'group_star_ctl': DSET},
+    at_calls={'results.push': [
+        ('C01 greedy: pushed design is a legal assignment (index level)',
+         _g_push_c01, ('C01', 'C13')),
+        ('C02 greedy: sizes, geo ratio, volume ratio and share within bounds',
+         _g_push_c02, ('C02', 'C13')),
+        ('C02 greedy: required budget within range', _g_push_budget,
+         ('C02',)),
+        ('C04 greedy: stored series are the aggregates of the stored groups',
+         _g_push_c04, ('C04',)),
+        ('C04 greedy: stored design owns objects of this iteration only',
+         _freeze, ('C04',)),
+    ]},
+    loops=[
+        LoopSpec(('while', '(k < max_treatment_size) | needs_matching'),
+                 invariants=[
+                     ('greedy invariant: stored and current groups are legal',
+                      _J, ('C01', 'C09')),
+                     ('the geo index of geo_assignments is installed',
+                      installed)],
+                 extra_modifies=GA_FIELDS_MOD),
+        LoopSpec(('geo', 'reassignable_geos'),
+                 invariants=[('candidate control group is admissible',
+                              _inner_match_inv, ('C01', 'C09')),
+                             ('index installed', installed)],
+                 extra_modifies=GA_FIELDS_MOD),
+        LoopSpec(('geo', 'r_treatment'),
+                 invariants=[('candidate groups are admissible',
+                              _inner_add_inv, ('C01', 'C09')),
+                             ('index installed', installed)],
+                 extra_modifies=GA_FIELDS_MOD),
+        LoopSpec(('k', 'group_star_trt'),
+                 invariants=[('result heap well formed', _results_wf),
+                             ('index installed', installed)],
+                 extra_modifies=EX_LOOP_MOD),
+    ])
+
+FUNCTIONS2.append(CLS + '.greedy_search')
